@@ -275,6 +275,21 @@ CLAIMED["C15"] = dict(
     technique="Lean 4 rejection / round-trip theorems with model counterexamples + catalogue-driven differential check with known-finding matching",
     design="7 C15")
 
+CLAIMED["C16"] = dict(
+    text="Kernel-checked: C16_tree — reading the file of ANY well-formed tree returns exactly that tree (C01), so saving what was "
+         "read writes the same file content: the fixed point is reached after one generation; C16_selection — every read selection "
+         "is again a well-formed tree; value level (the reader's output forms are distinct constructors of the model, so the "
+         "writer's behaviour on them is really exercised): C16_canon_idem — the read-back form is idempotent; C16_same_object — "
+         "saving what was read writes the SAME HDF5 object as the first save, for every documented value at any nesting depth "
+         "(mutual induction), hence C16_resave: generations 2, 3, ... are identical to generation 1.",
+    note="That a tuple / list of numpy scalars re-coerces to the array it came from is contract H6 (the model's saveItem on seqNp). "
+         "Array calibrations through generations (dim vectors re-expanded from arrays, np.str_ units) and legacy imports are "
+         "covered by the correspondence: three generations of save / read on real files for every read selection and for "
+         "imported EMD 0.1 files, content compared kind-sensitively; second-generation metadata objects compared with the first in "
+         "both the implementation and the Lean model. Two defects found here earlier were repaired (numpy bools, legacy units).",
+    technique="Lean 4 fixed-point proofs (tree level and value level, mutual induction) + three-generation differential runs",
+    design="7 C16")
+
 NOT_YET = {}
 
 def main():
